@@ -3,6 +3,9 @@
    c18decide: <cancelled> <simulate> <strict> <hash> <gen> <restat> <phony> <hasDeps> <hasInputs> <prior> <received> <outsNow>
               prior = - | kind:hash ; received = . | v;v;…  with v = kind/info ; info = dev:ino:mode:size:sec:nsec | -
               -> execute | complete <kind ordinal> <force> <shortcut>
+   c18deps  : <hasDeps> <explicit> <implicit> <orderOnly> <depfile entries>    (comma separated keys, `.` = none; an entry `-` =
+              a path that does not normalise)  -> the dependency list the engine stores after a successful execution:
+              key/orderOnly … (`.` = empty)
    infos are comma separated (`.` = none). -/
 import LLBuild.Drv.Common
 import LLBuild.Model.NinjaBuild
@@ -65,6 +68,17 @@ def stepDecide (line : String) : String :=
     | _, _, _, _ => "bad-op"
   | _ => "bad-op"
 
-def modes : List (String × Mode) := [("c18valid", lineLoop stepValid), ("c18decide", lineLoop stepDecide)]
+def parseKeys (s : String) : List String := if s == "." || s == "" then [] else s.splitOn ","
+
+def stepDeps (line : String) : String :=
+  match fields line with
+  | [hd, e, i, oo, ents] =>
+    let entries : List (Option String) := (parseKeys ents).map fun x => if x == "-" then none else some x
+    let l := dependencyList { hash := 0, hasDeps := bit hd } ⟨parseKeys e, parseKeys i, parseKeys oo⟩ entries (fun _ => false)
+    if l.isEmpty then "." else " ".intercalate (l.map fun d => s!"{d.key}/{if d.orderOnly then 1 else 0}")
+  | _ => "bad-op"
+
+def modes : List (String × Mode) :=
+  [("c18valid", lineLoop stepValid), ("c18decide", lineLoop stepDecide), ("c18deps", lineLoop stepDeps)]
 
 end LLBuild.Drv.C18
